@@ -92,6 +92,7 @@ func corpus() []scen.Scenario {
 		out = append(out, special(kind, 0)...)
 	}
 	out = append(out, selfEnd(0))
+	out = append(out, raceOnly(0)...)
 	return out
 }
 
@@ -116,6 +117,22 @@ func special(kind string, variant int) []scen.Scenario {
 		// the data files cannot be written (/dev/full): the file writer goroutines meet the error by themselves
 		{Kind: kind, Source: "simpulse", Nchan: 8, Pulse: 2000, Seed: uint64(51 + v),
 			Ops: ops("trig", 3, "biglen", "wfull", "trig", 0, "wait", 24+4*v, "wpause", "wunpause", "wait", 6, "wstop")},
+	}
+}
+
+// raceOnly: workloads that only make sense under the race detector.
+//   - the process itself is the consumer of the record channels and reads every sample, a little late
+//     (the ZMQ publishers let C code read them)
+//   - a Lancero source on a simulated card with ConfigureMixFraction requests while blocks flow
+//   - the scripted Abaco source with phase unwrapping on (per-channel goroutines inside demuxData)
+func raceOnly(v int) []scen.Scenario {
+	return []scen.Scenario{
+		{Kind: "race", Source: []string{"triangle", "simpulse"}[v%2], Nchan: 3 + v, GoPub: true, Seed: uint64(71 + v),
+			Ops: ops("trig", 1+v%2, "couple", "wait", 12+4*v, "trig", 0, "wait", 6)},
+		{Kind: "race", Source: "lancero", Nchan: 16, Seed: uint64(81 + v),
+			Ops: ops("trig", v%3, "wait", 3, "mix", 8+2*v, "sendall", "wait", 2, "mix", 4, "wait", 1)},
+		{Kind: "race", Source: "abaco", Nchan: 3 + v%2, Groups: 1 + v%2, Unwrap: true, Seed: uint64(91 + v),
+			Ops: ops("trig", 1, "wait", 6+2*v)},
 	}
 }
 
@@ -192,6 +209,9 @@ func gen(seed uint64, tier string) []interface{} {
 				add(s)
 			}
 			add(selfEnd(v))
+			for _, s := range raceOnly(v) {
+				add(s)
+			}
 		}
 	}
 	for i := 0; i < nconf; i++ {
@@ -374,7 +394,8 @@ var inventory = []struct {
 	{11, "writingState", regexp.MustCompile(`writingState|\bws\.`)},
 	{8, "trigger-rate slice", regexp.MustCompile(`countsSeen|CountsSeen`)},
 	{14, "SourceControl.status", regexp.MustCompile(`s\.status|isSourceActive`)},
-	{4, "block segments", regexp.MustCompile(`segments\[|rawData|datacopies`)},
+	{17, "Lancero mix", regexp.MustCompile(`errorScale|\.Mix\[|lastFb`)},
+	{4, "block segments", regexp.MustCompile(`segments\[|rawData|datacopies|\*dc|dc\[`)},
 	{7, "records", regexp.MustCompile(`record|rec\.`)},
 	{6, "processor state", regexp.MustCompile(`dsp\.|processors`)},
 }
